@@ -97,12 +97,15 @@ def jOutcome : Except Err (DM Rat) → Json
   | .ok d => obj [("dm", jDM d)]
   | .error e => obj [("err", jStr e.name)]
 
-/-- `{"op":"sel","dm":…,"chain":[…],"version":"fixed"|"v0"}` → `{"steps":[{"dm":…}|{"err":…},…]}` -/
+/-- `{"op":"sel","dm":…,"chain":[…],"version":"fixed"|"v1"|"v0"}` → `{"steps":[{"dm":…}|{"err":…},…]}` -/
 def opSel (j : Json) : Except String Json := do
   let d ← asDM (← field j "dm")
   let chain ← listOf asStep (← field j "chain")
-  let v0 := (← asStr (fieldD j "version" "fixed")) == "v0"
-  pure (obj [("steps", jList jOutcome (runTrace v0 d chain))])
+  let version := match (← asStr (fieldD j "version" "fixed")) with
+    | "v0" => 0
+    | "v1" => 1
+    | _ => 2
+  pure (obj [("steps", jList jOutcome (runTrace version d chain))])
 
 def asAliasKey (j : Json) : Except String AliasKey := do
   let (k, v) ← tagged j
